@@ -612,6 +612,10 @@ static void op_div_2d(Tape &t, Ctx &c) {
     int bits = bs == 0 ? 0 : bs == 1 ? 64 * (int) t.below((uint64_t) m + 2) : bs == 2 ? 8 : (int) t.below((uint64_t) 64 * m + 70);
     cs.edge = bs <= 2;
     unsigned am = (unsigned) t.below(6); // 0,1: c=a d=NULL (in-tree) 2: c=a,d sep 3: c sep,d NULL 4: both sep 5: c sep, d=a
+    // No in-tree caller asks for the remainder (d is always NULL).  The remainder path (pstm_mod_2d) evaluates
+    // ~0 >> (DIGIT_BIT - b) which is an undefined shift for b > DIGIT_BIT (see findings/mod_2d-shift-ub.md); it is
+    // therefore only requested for b < DIGIT_BIT, i.e. inside the range where the expression is defined.
+    if (bits >= 64 && (am == 2 || am == 4 || am == 5)) am = am == 2 ? 0 : 3;
     cs.alias = am <= 2 ? AL_CA : am == 5 ? AL_OTHER : AL_NONE;
     cs.extra = fmt("bits=%d mode=%u", bits, am);
     P pa, pc, pd;
@@ -640,4 +644,799 @@ static void op_div_2d(Tape &t, Ctx &c) {
         VF_FAIL("div_2d-mismatch", "%s: q=%s r=%s want q=%s r=%s", descr(cs).c_str(), zhex(gq.v).c_str(), r ? zhex(gr.v).c_str() : "-", zhex(tq.v).c_str(), zhex(tr.v).c_str());
     if (q != a && r != a) unchanged(c, a, A, cs.sa, cs, "a");
     poke(t, c, q, cs);
+}
+
+// ------------------------------------------------------------------ div / mod / mulmod
+// pstm_div: only caller is pstm_mod (c == NULL).  Positive operands: exact truncating quotient/remainder; with a negative
+// operand the documentation only promises c*b + d = a, so floor and truncate conventions are both accepted.
+static void op_div(Tape &t, Ctx &c) {
+    Case cs;
+    cs.op = "div";
+    int m = pick_nd(t, LIM), n = imax(1, pick_nd(t, LIM));
+    cs.ca = pick_cls(t, false);
+    Mag A = gen_mag(t, m, cs.ca, NULL);
+    cs.cb = pick_cls(t, true);
+    if (cs.cb >= EQ && m > 0) n = m;
+    Mag B = gen_mag(t, n, cs.cb, &A);
+    cs.m = m; cs.n = n;
+    cs.sa = m > 0 && t.below(6) == 0;
+    cs.sb = t.below(6) == 0;
+    unsigned am = (unsigned) t.below(8); // 0: c,d separate 1: c only 2: d only 3: c=a 4: d=a 5: d=b 6: c=b 7: c=a,d=b
+    cs.alias = am <= 2 ? AL_NONE : (am == 3 || am == 7) ? AL_CA : am == 6 ? AL_CB : AL_OTHER;
+    cs.extra = fmt("mode=%u", am);
+    P pa, pb, pc, pd;
+    mk(pa, A, cs.sa, (unsigned) t.below(5));
+    mk(pb, B, cs.sb, (unsigned) t.below(5));
+    pstm_int *a = &pa.v, *b = &pb.v, *q = NULL, *r = NULL;
+    if (am == 0 || am == 1 || am == 4 || am == 5) { mk_out(pc, t, true); q = &pc.v; }
+    if (am == 0 || am == 2 || am == 3 || am == 6) { mk_out(pd, t, true); r = &pd.v; }
+    if (am == 1) r = NULL;
+    if (am == 2) q = NULL;
+    if (am == 3) q = a;
+    if (am == 4) r = a;
+    if (am == 5) r = b;
+    if (am == 6) q = b;
+    if (am == 7) { q = a; r = b; }
+    book(c, cs);
+    Z za, zb, tq, tr, fq, fr, gq, gr;
+    z_from_mag(za.v, A, cs.sa); z_from_mag(zb.v, B, cs.sb);
+    mpz_tdiv_qr(tq.v, tr.v, za.v, zb.v);
+    mpz_fdiv_qr(fq.v, fr.v, za.v, zb.v);
+    int32_t rc = pstm_div(NULL, a, b, q, r);
+    okay(rc, cs);
+    bool tok = true, fok = true;
+    if (q) { inv(c, q, cs, "quotient"); z_from_p(gq.v, q); tok = tok && mpz_cmp(gq.v, tq.v) == 0; fok = fok && mpz_cmp(gq.v, fq.v) == 0; }
+    if (r) { inv(c, r, cs, "remainder"); z_from_p(gr.v, r); tok = tok && mpz_cmp(gr.v, tr.v) == 0; fok = fok && mpz_cmp(gr.v, fr.v) == 0; }
+    if (!tok && !fok)
+        VF_FAIL("div-mismatch", "%s: q=%s r=%s want q=%s r=%s", descr(cs).c_str(), q ? zhex(gq.v).c_str() : "-", r ? zhex(gr.v).c_str() : "-", zhex(tq.v).c_str(), zhex(tr.v).c_str());
+    if (q != a && r != a) unchanged(c, a, A, cs.sa, cs, "a");
+    if (q != b && r != b) unchanged(c, b, B, cs.sb, cs, "b");
+    // second net without GMP: q*b + r == a and |r| < |b|
+    if (am == 0 && t.below(3) == 0) {
+        P x; mk_out(x, t, true);
+        VF_CHECK(pstm_mul_comba(NULL, q, b, &x.v, NULL, 0) == PSTM_OKAY && pstm_add(&x.v, r, &x.v) == PSTM_OKAY && pstm_cmp(&x.v, a) == PSTM_EQ,
+                 "algebra-div-qb-plus-r", "%s: q*b + r != a", descr(cs).c_str());
+        VF_CHECK(pstm_cmp_mag(r, b) == PSTM_LT, "algebra-div-remainder-range", "%s: |r| >= |b|", descr(cs).c_str());
+        c.count("algebra:div");
+    }
+    if (q) poke(t, c, q, cs);
+    if (r && r != q) poke(t, c, r, cs);
+}
+// pstm_mod: "c = a mod b, 0 <= c < b": b > 0; a of either sign (invmod_slow passes the caller's a).  In-tree: c=a (ecc).
+static void op_mod(Tape &t, Ctx &c) {
+    Case cs;
+    cs.op = "mod";
+    int m = pick_nd(t, LIM), n = imax(1, pick_nd(t, 70));
+    cs.ca = pick_cls(t, false);
+    Mag B = gen_modulus(t, n, false, 1, cs);
+    n = (int) B.size();
+    int ca2 = cs.ca;
+    if (t.below(6) == 0) { ca2 = EQ + (int) t.below(3); m = n; }
+    Mag A = gen_mag(t, m, ca2, &B);
+    cs.ca = ca2; cs.cb = cs.cc; cs.cc = RND;
+    cs.m = m; cs.n = n;
+    cs.sa = m > 0 && t.below(5) == 0;
+    unsigned am = (unsigned) t.below(4);
+    cs.alias = am == 1 ? AL_CA : am == 2 ? AL_CB : AL_NONE;
+    P pa, pb, pc;
+    mk(pa, A, cs.sa, (unsigned) t.below(5));
+    mk(pb, B, 0, (unsigned) t.below(5));
+    pstm_int *a = &pa.v, *b = &pb.v, *o;
+    if (cs.alias == AL_CA) o = a; else if (cs.alias == AL_CB) o = b; else { mk_out(pc, t, true); o = &pc.v; }
+    book(c, cs);
+    Z za, zb, want;
+    z_from_mag(za.v, A, cs.sa); z_from_mag(zb.v, B, 0);
+    mpz_mod(want.v, za.v, zb.v);
+    int32_t rc = pstm_mod(NULL, a, b, o);
+    okay(rc, cs);
+    expect(c, o, want.v, cs);
+    if (o != a) unchanged(c, a, A, cs.sa, cs, "a");
+    if (o != b) unchanged(c, b, B, 0, cs, "b");
+    poke(t, c, o, cs);
+}
+// pstm_mulmod: d = a*b mod c, c > 0.  In-tree: ecc_priv/ecc_pub/ecc_math/rsa (d=a, separate), exptmod (d=a).
+static void op_mulmod(Tape &t, Ctx &c) {
+    Case cs;
+    cs.op = "mulmod";
+    int k = imax(1, pick_nd(t, 70));
+    Mag M = gen_modulus(t, k, false, 1, cs);
+    k = (int) M.size();
+    // operands: usually already reduced (<= k digits), sometimes longer
+    int m = t.below(4) ? pick_nd(t, k) : pick_nd(t, 90), n = t.below(4) ? pick_nd(t, k) : pick_nd(t, 90);
+    cs.ca = pick_cls(t, true);
+    if (cs.ca >= EQ) m = k;
+    Mag A = gen_mag(t, m, cs.ca, &M);
+    cs.cb = pick_cls(t, true);
+    if (cs.cb >= EQ && m > 0) n = m;
+    Mag B = gen_mag(t, n, cs.cb, &A);
+    cs.sa = m > 0 && t.below(6) == 0;
+    cs.sb = n > 0 && t.below(6) == 0;
+    cs.alias = pick_alias3(t);
+    if (cs.alias == AL_AB || cs.alias == AL_ALL) { B = A; cs.sb = cs.sa; n = m; cs.cb = A.empty() ? RND : EQ; }
+    cs.m = m; cs.n = n; cs.k = k;
+    P pa, pb, pm, pd;
+    mk(pa, A, cs.sa, (unsigned) t.below(5));
+    pstm_int *a = &pa.v, *b = a, *o;
+    if (!(cs.alias == AL_AB || cs.alias == AL_ALL)) { mk(pb, B, cs.sb, (unsigned) t.below(5)); b = &pb.v; }
+    mk(pm, M, 0, (unsigned) t.below(5));
+    if (cs.alias == AL_CA || cs.alias == AL_ALL) o = a; else if (cs.alias == AL_CB) o = b; else { mk_out(pd, t, true); o = &pd.v; }
+    book(c, cs);
+    Z za, zb, zm, want;
+    z_from_mag(za.v, A, cs.sa); z_from_mag(zb.v, B, cs.sb); z_from_mag(zm.v, M, 0);
+    mpz_mul(want.v, za.v, zb.v); mpz_mod(want.v, want.v, zm.v);
+    // second net first (needs the unmodified inputs): mod(mul_comba(a,b), m)
+    P x, y; bool second = t.below(3) == 0;
+    if (second) {
+        mk_out(x, t, true); mk_out(y, t, true);
+        VF_CHECK(pstm_mul_comba(NULL, a, b, &x.v, NULL, 0) == PSTM_OKAY && pstm_mod(NULL, &x.v, &pm.v, &y.v) == PSTM_OKAY, "algebra-mulmod-vs-mul-mod", "%s: mul/mod failed", descr(cs).c_str());
+    }
+    int32_t rc = pstm_mulmod(NULL, a, b, &pm.v, o);
+    okay(rc, cs);
+    expect(c, o, want.v, cs);
+    if (second) { VF_CHECK(pstm_cmp(&y.v, o) == PSTM_EQ, "algebra-mulmod-vs-mul-mod", "%s: mulmod != mod(mul)", descr(cs).c_str()); c.count("algebra:mulmod"); }
+    if (o != a) unchanged(c, a, A, cs.sa, cs, "a");
+    if (o != b && b != a) unchanged(c, b, B, cs.sb, cs, "b");
+    unchanged(c, &pm.v, M, 0, cs, "modulus");
+    poke(t, c, o, cs);
+}
+
+// ------------------------------------------------------------------ invmod
+// In-tree: ecc_priv.c (k^-1 mod order, out=a), ecc_pub.c (s^-1 mod order, 0 < s < order checked), ecc_math.c (z^-1 mod p),
+// rsa_parse_mem.c (q^-1 mod p, q < p, up to 2048-bit each).  So "must succeed": 0 < a < b, gcd(a,b) = 1, bits(a)+bits(b) <= 4096.
+static void op_invmod(Tape &t, Ctx &c) {
+    Case cs;
+    cs.op = "invmod";
+    int k = imax(1, pick_nd(t, 66));
+    Mag M = gen_modulus(t, k, false, 2, cs);
+    k = (int) M.size();
+    bool wild = t.below(5) == 0; // operand not reduced / negative: weaker oracle
+    int m = wild ? pick_nd(t, 70) : pick_nd(t, k);
+    cs.ca = pick_cls(t, true);
+    if (cs.ca >= EQ) m = k;
+    Mag A = gen_mag(t, m, cs.ca, &M);
+    cs.sa = wild && m > 0 && t.below(3) == 0;
+    Z za, zm, want, g;
+    z_from_mag(zm.v, M, 0);
+    z_from_mag(za.v, A, 0);
+    if (!wild && mpz_cmp(za.v, zm.v) >= 0) { mpz_mod(za.v, za.v, zm.v); A = mag_from_z(za.v); m = (int) A.size(); }
+    if (cs.sa) mpz_neg(za.v, za.v);
+    cs.m = m; cs.n = k; cs.cb = cs.cc; cs.cc = RND;
+    cs.alias = t.below(3) == 0 ? AL_CA : AL_NONE;
+    cs.extra += wild ? " wild" : "";
+    P pa, pm, pc;
+    mk(pa, A, cs.sa, (unsigned) t.below(5));
+    mk(pm, M, 0, (unsigned) t.below(5));
+    pstm_int *a = &pa.v, *o = a;
+    if (cs.alias == AL_NONE) { mk_out(pc, t, true); o = &pc.v; }
+    book(c, cs);
+    mpz_gcd(g.v, za.v, zm.v);
+    bool invertible = mpz_cmp_ui(g.v, 1) == 0;
+    bool indomain = !wild && m > 0 && mpz_sizeinbase(za.v, 2) + mpz_sizeinbase(zm.v, 2) <= 4096;
+    c.count(invertible ? "invmod:invertible" : "invmod:non-invertible");
+    c.count((M[0] & 1) ? "invmod:odd-modulus" : "invmod:even-modulus");
+    int32_t rc = pstm_invmod(NULL, a, &pm.v, o);
+    if (rc != PSTM_OKAY) {
+        c.count("invmod:error-return");
+        VF_CHECK(!(indomain && invertible), "invmod-error-in-domain", "%s: returned %d for an invertible element", descr(cs).c_str(), (int) rc);
+        inv(c, a, cs, "a after error");
+        return;
+    }
+    inv(c, o, cs, "result");
+    if (m == 0) { c.count("invmod:zero-operand-ok"); return; } // 1/0: outside every caller's domain
+    VF_CHECK(invertible, "invmod-accepted-noninvertible", "%s: returned success although gcd(a,b)=%s", descr(cs).c_str(), zhex(g.v).c_str());
+    Z got, prod;
+    z_from_p(got.v, o);
+    if (indomain) {
+        mpz_invert(want.v, za.v, zm.v);
+        if (mpz_cmp(got.v, want.v) != 0) VF_FAIL("invmod-mismatch", "%s: got=%s want=%s", descr(cs).c_str(), zhex(got.v).c_str(), zhex(want.v).c_str());
+    } else { // only the congruence a*c == 1 (mod b) is demanded
+        mpz_mul(prod.v, got.v, za.v); mpz_sub_ui(prod.v, prod.v, 1); mpz_mod(prod.v, prod.v, zm.v);
+        if (mpz_sgn(prod.v) != 0) VF_FAIL("invmod-mismatch", "%s: a*c != 1 (mod b), c=%s", descr(cs).c_str(), zhex(got.v).c_str());
+        c.count("invmod:wild-ok");
+    }
+    if (o != a) unchanged(c, a, A, cs.sa, cs, "a");
+    unchanged(c, &pm.v, M, 0, cs, "modulus");
+    if (o != a && t.below(3) == 0) { // second net: a * a^-1 mod b == 1 using pstm only
+        P x; mk_out(x, t, true);
+        bool one = M.size() == 1 && M[0] == 1;
+        VF_CHECK(pstm_mulmod(NULL, a, o, &pm.v, &x.v) == PSTM_OKAY && (one || pstm_cmp_d(&x.v, 1) == PSTM_EQ), "algebra-invmod-product", "%s: a * a^-1 mod b != 1", descr(cs).c_str());
+        c.count("algebra:invmod");
+    }
+}
+
+// ------------------------------------------------------------------ exptmod
+// "x must be positive and < p; p must be positive, odd, and [512,1024,1536,2048,3072,4096] bits".  In-tree: rsa.c (Y=G,
+// G < N; CRT: G has twice the digits of P), dh (G=2.. or peer public value < p).
+static Mag expt_modulus(Tape &t, int bits, int &kind, Case &cs) {
+    int nd = bits / 64;
+    unsigned r = (unsigned) t.below(16);
+    kind = r < 7 ? 0 : r < 11 ? 1 : r == 11 ? 2 : r == 12 ? 3 : r == 13 ? 0 : r == 14 ? 4 : 5;
+    Mag m;
+    if (kind == 1) {
+        if (bits == 512) m = rsa_prime(512, 0);
+        else if (bits == 1024) m = t.coin() ? rsa_prime(1024, 0) : rsa_modulus(1024);
+        else if (bits == 2048) m = t.coin() ? rsa_prime(2048, 0) : rsa_modulus(2048);
+        else if (bits == 4096) m = rsa_modulus(4096);
+        else kind = 0;
+    }
+    if (kind == 0 || kind == 4 || kind == 5) {
+        int cls = pick_cls(t, false);
+        m = gen_mag(t, nd, cls, NULL);
+        m[nd - 1] |= 1ULL << 63; m[0] |= 1;
+        cs.cc = cls;
+        if (kind == 4) m[0] &= ~1ULL;
+        if (kind == 5) { if (t.coin()) m[nd - 1] &= ~(1ULL << 63); else m.push_back(1); if (m.back() == 0) m.back() = 1; }
+    } else if (kind == 2) m.assign(nd, ~0ULL);
+    else if (kind == 3) { m.assign(nd, 0); m[nd - 1] = 1ULL << 63; m[0] = 1; }
+    static const char *kn[] = { "rnd-odd", "real", "2^k-1", "2^(k-1)+1", "even", "badsize" };
+    cs.extra += std::string(" P=") + kn[kind];
+    return m;
+}
+static void gen_exponent(Tape &t, const mpz_t p, mpz_t x, Case &cs, int nd) {
+    unsigned r = (unsigned) t.below(16);
+    if (r < 5) { int cls = RND; Mag m = gen_mag(t, nd, cls, NULL); z_from_mag(x, m, 0); mpz_mod(x, x, p); cs.extra += " X=rnd"; }
+    else if (r == 5) { mpz_set_ui(x, 3); cs.extra += " X=3"; }
+    else if (r == 6) { mpz_set_ui(x, 65537); cs.extra += " X=65537"; }
+    else if (r == 7) { mpz_sub_ui(x, p, 1); cs.extra += " X=P-1"; }
+    else if (r == 8) { mpz_sub_ui(x, p, 2); cs.extra += " X=P-2"; }
+    else if (r == 9) { mpz_set_ui(x, 1 + t.below(2)); cs.extra += " X=1or2"; }
+    else if (r == 10) { mpz_set_ui(x, 1); mpz_mul_2exp(x, x, t.below((uint64_t) nd * 64 - 1)); cs.extra += " X=2^j"; }
+    else if (r == 11) { mpz_set_ui(x, 1); mpz_mul_2exp(x, x, 1 + t.below((uint64_t) nd * 64 - 2)); mpz_sub_ui(x, x, 1); cs.extra += " X=2^j-1"; }
+    else if (r == 12) { mpz_set_ui(x, 0); cs.extra += " X=0"; }
+    else { int cls = pick_cls(t, false); int xd = 1 + (int) t.below((uint64_t) nd); Mag m = gen_mag(t, xd, cls, NULL); z_from_mag(x, m, 0); mpz_mod(x, x, p); cs.extra += " X=short"; }
+}
+static int32_t expt_call(const Mag &G, const Mag &X, const Mag &Pm, Mag *out, unsigned am) {
+    P g, x, p, y;
+    mk(g, G, 0, am); mk(x, X, 0, am + 1); mk(p, Pm, 0, am + 2);
+    Mag z; mk(y, z, 0, 0);
+    int32_t rc = pstm_exptmod(NULL, &g.v, &x.v, &p.v, &y.v);
+    if (rc == PSTM_OKAY) { out->assign(y.v.dp, y.v.dp + y.v.used); }
+    return rc;
+}
+static void op_exptmod(Tape &t, Ctx &c) {
+    Case cs;
+    cs.op = "exptmod";
+    static const int sizes[6] = { 512, 1024, 1536, 2048, 3072, 4096 };
+    unsigned r = (unsigned) t.below(32);
+    int bits = sizes[r < 16 ? 0 : r < 25 ? 1 : r < 27 ? 2 : r < 30 ? 3 : r < 31 ? 4 : 5];
+    int nd = bits / 64, kind = 0;
+    Mag Pm = expt_modulus(t, bits, kind, cs);
+    Z zp, zg, zx, want;
+    z_from_mag(zp.v, Pm, 0);
+    // base: reduced (< P), equal/above P with the same digit count, double size (RSA-CRT), tiny (DH generator)
+    unsigned gk = (unsigned) t.below(16);
+    Mag G;
+    cs.ca = RND;
+    if (gk < 7) { cs.ca = pick_cls(t, true); G = gen_mag(t, (int) Pm.size(), cs.ca, &Pm); z_from_mag(zg.v, G, 0); if (cs.ca < EQ) { mpz_mod(zg.v, zg.v, zp.v); G = mag_from_z(zg.v); } cs.extra += " G=full"; }
+    else if (gk < 9) { G.assign(1, 2 + t.below(4)); cs.extra += " G=small"; }
+    else if (gk == 9) { G.assign(1, t.below(2)); trim(G); cs.extra += " G=0or1"; }
+    else if (gk == 10) { mpz_sub_ui(zg.v, zp.v, 1); G = mag_from_z(zg.v); cs.extra += " G=P-1"; }
+    else if (gk == 11) { G = Pm; cs.ca = EQ; cs.extra += " G=P"; }
+    else if (gk == 12) { int cls = ONES; G = gen_mag(t, (int) Pm.size(), cls, NULL); cs.ca = ONES; cs.extra += " G=ones(>=P)"; }
+    else if (gk < 15) { cs.ca = pick_cls(t, false); G = gen_mag(t, 2 * nd - (int) t.below(2), cs.ca, NULL); cs.extra += " G=double"; }
+    else { cs.ca = pick_cls(t, false); G = gen_mag(t, 1 + (int) t.below((uint64_t) nd), cs.ca, NULL); cs.extra += " G=short"; }
+    z_from_mag(zg.v, G, 0);
+    gen_exponent(t, zp.v, zx.v, cs, nd);
+    Mag X = mag_from_z(zx.v);
+    cs.m = (int) G.size(); cs.n = (int) X.size(); cs.k = (int) Pm.size();
+    cs.alias = t.below(2) ? AL_CA : AL_NONE; // Y = G as in rsa.c
+    cs.edge = true;
+    cs.extra += fmt(" bits=%d", bits);
+    P g, x, p, y;
+    mk(g, G, 0, (unsigned) t.below(5)); mk(x, X, 0, (unsigned) t.below(5)); mk(p, Pm, 0, (unsigned) t.below(5));
+    pstm_int *o = &g.v;
+    if (cs.alias == AL_NONE) { mk_out(y, t, false); o = &y.v; }
+    book(c, cs);
+    c.count(fmt("exptmod:bits=%d", bits));
+    int32_t rc = pstm_exptmod(NULL, &g.v, &x.v, &p.v, o);
+    bool indomain = kind <= 3 && mpz_sgn(zx.v) > 0;
+    if (!indomain) { // error accepted; a success return is still compared with the exact value when that is well defined
+        c.count(kind == 4 ? "exptmod:even-modulus" : kind == 5 ? "exptmod:bad-size" : "exptmod:zero-exponent");
+        if (rc != PSTM_OKAY) { c.count("exptmod:error-outside-domain"); return; }
+        if (mpz_sgn(zx.v) == 0) return;
+    } else okay(rc, cs);
+    mpz_powm(want.v, zg.v, zx.v, zp.v);
+    expect(c, o, want.v, cs);
+    if (o != &g.v) unchanged(c, &g.v, G, 0, cs, "G");
+    unchanged(c, &x.v, X, 0, cs, "X");
+    unchanged(c, &p.v, Pm, 0, cs, "P");
+    // second net (no GMP): g^(x1+x2) == g^x1 * g^x2 (mod p), only for the cheaper sizes
+    if (bits <= 1024 && t.below(4) == 0) {
+        Z x1, x2, xs;
+        mpz_tdiv_q_2exp(x1.v, zx.v, 1); mpz_sub(x2.v, zx.v, x1.v); // x = x1 + x2, both > 0 unless x == 1
+        if (mpz_sgn(x1.v) > 0) {
+            Mag y1, y2;
+            unsigned am = (unsigned) t.below(5);
+            VF_CHECK(expt_call(G, mag_from_z(x1.v), Pm, &y1, am) == PSTM_OKAY && expt_call(G, mag_from_z(x2.v), Pm, &y2, am) == PSTM_OKAY, "algebra-exptmod-split", "%s: partial exptmod failed", descr(cs).c_str());
+            P a, b, d; trim(y1); trim(y2);
+            mk(a, y1, 0, 1); mk(b, y2, 0, 1); mk_out(d, t, true);
+            VF_CHECK(pstm_mulmod(NULL, &a.v, &b.v, &p.v, &d.v) == PSTM_OKAY && pstm_cmp(&d.v, o) == PSTM_EQ, "algebra-exptmod-split", "%s: g^(x1+x2) != g^x1 * g^x2", descr(cs).c_str());
+            c.count("algebra:exptmod-split");
+        }
+    }
+}
+
+// ------------------------------------------------------------------ lshd / rshd / 2expt
+// Digit shifts in place.  pstm_lshd is only reached through pstm_mul_2d (which clamps afterwards) with a non-zero value,
+// so for a zero input only the value (still zero) is checked, not the normal form.
+static void op_shiftd(Tape &t, Ctx &c, int kind) {
+    Case cs;
+    cs.op = kind == 0 ? "lshd" : kind == 1 ? "rshd" : "2expt";
+    if (kind == 2) {
+        P a; mk_out(a, t, true);
+        unsigned bs = (unsigned) t.below(4);
+        int b = bs == 0 ? (int) t.below(35 * 64) : bs == 1 ? 64 * (int) t.below(LIM) : bs == 2 ? 64 * (int) t.below(LIM) + 63 : (int) t.below((uint64_t) LIM * 64);
+        cs.m = b / 64 + 1; cs.edge = bs == 1 || bs == 2; cs.extra = fmt("b=%d", b);
+        book(c, cs);
+        Z want; mpz_set_ui(want.v, 1); mpz_mul_2exp(want.v, want.v, b);
+        okay(pstm_2expt(&a.v, (int16_t) b), cs);
+        expect(c, &a.v, want.v, cs);
+        poke(t, c, &a.v, cs);
+        return;
+    }
+    int m = pick_nd(t, LIM - 1);
+    cs.ca = pick_cls(t, false);
+    Mag A = gen_mag(t, m, cs.ca, NULL);
+    cs.m = m; cs.sa = m > 0 && t.below(5) == 0; cs.alias = AL_CA;
+    int b = kind == 0 ? (int) t.below((uint64_t) imin(LIM - m, 40) + 1) : (int) t.below((uint64_t) m + 3);
+    cs.extra = fmt("b=%d", b); cs.edge = b == 0 || b >= m;
+    P a; mk(a, A, cs.sa, (unsigned) t.below(5));
+    book(c, cs);
+    Z za, want; z_from_mag(za.v, A, cs.sa);
+    if (kind == 0) {
+        mpz_mul_2exp(want.v, za.v, 64 * (unsigned long) b);
+        okay(pstm_lshd(&a.v, (uint16_t) b), cs);
+        if (m == 0) { Z got; z_from_p(got.v, &a.v); VF_CHECK(mpz_sgn(got.v) == 0, "lshd-mismatch", "%s: 0 << b != 0", descr(cs).c_str()); if (a.v.used) c.count("info:lshd-of-zero-unnormalised"); return; }
+        expect(c, &a.v, want.v, cs);
+        if (t.below(3) == 0) { pstm_rshd(&a.v, (uint16_t) b); expect(c, &a.v, za.v, cs, "rshd(lshd(a))"); c.count("algebra:lshd-rshd"); }
+    } else {
+        mpz_tdiv_q_2exp(want.v, za.v, 64 * (unsigned long) b);
+        pstm_rshd(&a.v, (uint16_t) b);
+        expect(c, &a.v, want.v, cs);
+    }
+    poke(t, c, &a.v, cs);
+}
+
+// ------------------------------------------------------------------ cmp / cmp_mag / cmp_d
+static int sgn3(int v) { return v < 0 ? PSTM_LT : v > 0 ? PSTM_GT : PSTM_EQ; }
+static void op_cmp(Tape &t, Ctx &c, int kind) {
+    Case cs;
+    cs.op = kind == 0 ? "cmp" : kind == 1 ? "cmp_mag" : "cmp_d";
+    int m = kind == 2 ? (t.below(3) ? (int) t.below(3) : pick_nd(t, MAXD)) : pick_nd(t, MAXD);
+    cs.ca = pick_cls(t, false);
+    Mag A = gen_mag(t, m, cs.ca, NULL);
+    cs.m = m; cs.sa = m > 0 && t.below(3) == 0;
+    Z za; z_from_mag(za.v, A, cs.sa);
+    if (kind == 2) {
+        bool edge; pstm_digit d = pick_digit(t, &edge);
+        unsigned rel = (unsigned) t.below(4);
+        if (m == 1 && rel == 1) d = A[0]; else if (m == 1 && rel == 2) d = A[0] + 1; else if (m == 1 && rel == 3) d = A[0] - 1;
+        cs.edge = edge || rel != 0; cs.extra = fmt("d=%llx", (unsigned long long) d);
+        P a;
+        if (m == 0 && t.coin()) { // a zero produced by arithmetic (x - x) in a variable that held something else before
+            P x; Mag g = cheap_mag(t, 1 + (int) t.below(6)); mk(x, g, t.coin(), 1); mk_out(a, t, true);
+            VF_CHECK(pstm_sub(&x.v, &x.v, &a.v) == PSTM_OKAY, "cmp_d-setup", "x-x failed");
+            cs.extra += " zero=x-x";
+        } else mk(a, A, cs.sa, (unsigned) t.below(5));
+        book(c, cs);
+        Z zd; mpz_import(zd.v, 1, -1, 8, 0, 0, &d);
+        int want = sgn3(mpz_cmp(za.v, zd.v)), got = pstm_cmp_d(&a.v, d);
+        VF_CHECK(got == want, "cmp_d-mismatch", "%s: got %d want %d", descr(cs).c_str(), got, want);
+        return;
+    }
+    int n = pick_nd(t, MAXD);
+    cs.cb = pick_cls(t, true);
+    if (t.below(3) == 0) cs.cb = EQ + (int) t.below(3);
+    if (cs.cb >= EQ && m > 0) n = m;
+    Mag B = gen_mag(t, n, cs.cb, &A);
+    cs.n = n; cs.sb = n > 0 && (t.below(3) == 0 ? !cs.sa : cs.sa);
+    cs.alias = t.below(8) == 0 ? AL_AB : AL_NONE;
+    P a, b; mk(a, A, cs.sa, (unsigned) t.below(5));
+    pstm_int *pb = &a.v;
+    if (cs.alias == AL_AB) { B = A; cs.sb = cs.sa; cs.cb = A.empty() ? RND : EQ; cs.n = m; } else { mk(b, B, cs.sb, (unsigned) t.below(5)); pb = &b.v; }
+    book(c, cs);
+    Z zb; z_from_mag(zb.v, B, cs.sb);
+    int want = kind == 0 ? sgn3(mpz_cmp(za.v, zb.v)) : sgn3(mpz_cmpabs(za.v, zb.v));
+    int got = kind == 0 ? pstm_cmp(&a.v, pb) : pstm_cmp_mag(&a.v, pb);
+    VF_CHECK(got == want, cs.op + "-mismatch", "%s: got %d want %d", descr(cs).c_str(), got, want);
+    unchanged(c, &a.v, A, cs.sa, cs, "a");
+    if (pb != &a.v) unchanged(c, pb, B, cs.sb, cs, "b");
+}
+
+// ------------------------------------------------------------------ Montgomery: setup / calc_normalization / reduce
+// In-tree (ecc_math.c, exptmod): odd modulus; reduce is applied in place to products/squares of values < m (so a < m*R),
+// in variables with alloc >= m.used+1, with a scratch buffer of (2*m.used+1) digits or NULL.  Result must be a*R^-1 mod m, < m.
+static void op_mont(Tape &t, Ctx &c) {
+    Case cs;
+    cs.op = "montgomery";
+    int k = imax(1, pick_nd(t, 70));
+    bool even = t.below(24) == 0;
+    Mag M = gen_modulus(t, k, !even, 3, cs);
+    if (even) { M[0] &= ~1ULL; trim(M); if (M.empty()) M.assign(1, 4); }
+    k = (int) M.size();
+    cs.k = k;
+    P pm; mk(pm, M, 0, (unsigned) t.below(5));
+    pstm_digit mp = 0;
+    int32_t rc = pstm_montgomery_setup(&pm.v, &mp);
+    if (even) {
+        cs.m = k; cs.extra += " even"; book(c, cs); c.count("montgomery:even-modulus");
+        VF_CHECK(rc != PSTM_OKAY, "montgomery_setup-accepted-even", "%s: even modulus accepted", descr(cs).c_str());
+        return;
+    }
+    Z zm, zr, rinv, want;
+    z_from_mag(zm.v, M, 0);
+    // operand(s): x, y < m  (classes relative to m too: m-1 etc. via DBOT/DTOP)
+    int variant = (int) t.below(8); // 0-3: x*y  4-5: x^2  6: arbitrary a < m*R  7: a = (m-1)^2 / extremes
+    cs.ca = pick_cls(t, true);
+    int m1 = cs.ca >= EQ ? k : pick_nd(t, k);
+    Mag X = gen_mag(t, m1, cs.ca, &M);
+    Z zx, zy, zt;
+    z_from_mag(zx.v, X, 0);
+    if (mpz_cmp(zx.v, zm.v) >= 0) { mpz_mod(zx.v, zx.v, zm.v); X = mag_from_z(zx.v); }
+    cs.cb = pick_cls(t, true);
+    int n1 = cs.cb >= EQ ? k : pick_nd(t, k);
+    Mag Y = gen_mag(t, n1, cs.cb, &M);
+    z_from_mag(zy.v, Y, 0);
+    if (mpz_cmp(zy.v, zm.v) >= 0) { mpz_mod(zy.v, zy.v, zm.v); Y = mag_from_z(zy.v); }
+    if (variant == 7) { mpz_sub_ui(zx.v, zm.v, 1); X = mag_from_z(zx.v); Y = X; mpz_set(zy.v, zx.v); }
+    cs.m = (int) X.size(); cs.n = (int) Y.size();
+    cs.extra += fmt(" variant=%d", variant);
+    book(c, cs);
+    okay(rc, cs, "montgomery_setup");
+    VF_CHECK((pstm_digit) (mp * M[0]) == ~(pstm_digit) 0, "montgomery_setup-mismatch", "%s: rho=%llx m0=%llx: rho*m0 != -1 mod 2^64", descr(cs).c_str(), (unsigned long long) mp, (unsigned long long) M[0]);
+    // R mod m
+    mpz_set_ui(zr.v, 1); mpz_mul_2exp(zr.v, zr.v, 64 * (unsigned long) k);
+    { P nrm; mk_out(nrm, t, true);
+      okay(pstm_montgomery_calc_normalization(&nrm.v, &pm.v), cs, "calc_normalization");
+      mpz_mod(want.v, zr.v, zm.v);
+      Case c2 = cs; c2.op = "montgomery_calc_normalization";
+      expect(c, &nrm.v, want.v, c2); }
+    VF_CHECK(mpz_invert(rinv.v, zr.v, zm.v) != 0, "harness-bug", "R not invertible mod odd m");
+    // scratch buffer
+    unsigned pmode = (unsigned) t.below(4);
+    std::vector<pstm_digit> pad;
+    if (pmode == 1) pad.assign((size_t) (2 * k + 1), 0x5A5A5A5A5A5A5A5AULL);
+    else if (pmode == 2) pad.assign((size_t) (2 * k + 3 + (int) t.below(4)), 0x5A5A5A5A5A5A5A5AULL);
+    else if (pmode == 3) pad.assign((size_t) imax(1, 2 * k - (int) t.below(3)), 0x5A5A5A5A5A5A5A5AULL);
+    pstm_digit *paD = pmode ? pad.data() : NULL; psSize_t paDlen = (psSize_t) (pad.size() * 8);
+    c.count(fmt("montgomery:paD-mode:%u", pmode));
+    // the value to reduce, in a variable of at least k+1 digits
+    P T;
+    { Mag z; int al = imax(k + 1, (int) t.below(3) == 0 ? 2 * k + 1 : k + 1 + (int) t.below(4));
+      VF_CHECK(pstm_init_size(NULL, &T.v, (psSize_t) imin(al, MAXD)) == PSTM_OKAY, "harness-init", "init T"); T.live = true; }
+    if (variant <= 3 || variant == 7) {
+        P x, y; mk(x, X, 0, (unsigned) t.below(5)); mk(y, Y, 0, (unsigned) t.below(5));
+        okay(pstm_mul_comba(NULL, &x.v, &y.v, &T.v, paD, paDlen), cs, "mul_comba");
+        mpz_mul(zt.v, zx.v, zy.v);
+    } else if (variant <= 5) {
+        P x; mk(x, X, 0, (unsigned) t.below(5));
+        okay(pstm_sqr_comba(NULL, &x.v, &T.v, paD, paDlen), cs, "sqr_comba");
+        mpz_mul(zt.v, zx.v, zx.v);
+    } else {
+        int cls = pick_cls(t, false);
+        Mag A = gen_mag(t, (int) t.below((uint64_t) 2 * k + 1), cls, NULL);
+        Z lim; mpz_mul_2exp(lim.v, zm.v, 64 * (unsigned long) k);
+        z_from_mag(zt.v, A, 0);
+        if (mpz_cmp(zt.v, lim.v) >= 0) mpz_mod(zt.v, zt.v, lim.v);
+        A = mag_from_z(zt.v);
+        VF_CHECK(pstm_grow(&T.v, (psSize_t) imax((int) A.size(), 1)) == PSTM_OKAY, "harness-init", "grow T");
+        for (size_t i = 0; i < A.size(); i++) T.v.dp[i] = A[i];
+        T.v.used = (uint16_t) A.size();
+    }
+    expect(c, &T.v, zt.v, cs, "value before reduce");
+    if (T.v.alloc < k + 1) VF_CHECK(pstm_grow(&T.v, (psSize_t) (k + 1)) == PSTM_OKAY, "harness-init", "grow T");
+    rc = pstm_montgomery_reduce(NULL, &T.v, &pm.v, mp, paD, paDlen);
+    Case c3 = cs; c3.op = "montgomery_reduce";
+    okay(rc, c3);
+    mpz_mul(want.v, zt.v, rinv.v); mpz_mod(want.v, want.v, zm.v);
+    expect(c, &T.v, want.v, c3);
+    unchanged(c, &pm.v, M, 0, c3, "modulus");
+    // second net without GMP: the ECC way of multiplying: reduce(mulmod(x,R mod m,m) * y) == mulmod(x,y,m)
+    if (t.below(4) == 0) {
+        P x, y, nrm, xr, prod, ref;
+        mk(x, X, 0, 1); mk(y, Y, 0, 1); mk_out(nrm, t, false); mk_out(xr, t, false); mk_out(prod, t, false); mk_out(ref, t, false);
+        bool ok = pstm_montgomery_calc_normalization(&nrm.v, &pm.v) == PSTM_OKAY
+                  && pstm_mulmod(NULL, &x.v, &nrm.v, &pm.v, &xr.v) == PSTM_OKAY
+                  && pstm_mul_comba(NULL, &xr.v, &y.v, &prod.v, NULL, 0) == PSTM_OKAY
+                  && pstm_grow(&prod.v, (psSize_t) (k + 1)) == PSTM_OKAY
+                  && pstm_montgomery_reduce(NULL, &prod.v, &pm.v, mp, NULL, 0) == PSTM_OKAY
+                  && pstm_mulmod(NULL, &x.v, &y.v, &pm.v, &ref.v) == PSTM_OKAY;
+        VF_CHECK(ok && pstm_cmp(&prod.v, &ref.v) == PSTM_EQ, "algebra-montgomery-mulmod", "%s: redc(xR*y) != x*y mod m (ok=%d)", descr(cs).c_str(), (int) ok);
+        c.count("algebra:montgomery");
+    }
+    poke(t, c, &T.v, c3);
+}
+
+// ------------------------------------------------------------------ import / export
+static std::vector<uint8_t> gen_bytes(Tape &t, int len, Case &cs) {
+    std::vector<uint8_t> b((size_t) len, 0);
+    unsigned k = (unsigned) t.below(8);
+    Src s(t);
+    cs.ca = k <= 3 ? RND : k == 4 ? ONES : k == 5 ? POW2 : k == 6 ? POW2P1 : SPARSE;
+    for (int i = 0; i < len; i += 8) {
+        uint64_t v = k <= 3 ? s.next() : k == 4 ? ~0ULL : k == 7 ? ((s.next() & 1) ? ~0ULL : 0) : 0;
+        for (int j = 0; j < 8 && i + j < len; j++) b[(size_t) (i + j)] = (uint8_t) (v >> (8 * j));
+    }
+    if (len > 0 && (k == 5 || k == 6)) b[0] = (uint8_t) (1u << t.below(8));
+    if (len > 0 && k == 6) b[(size_t) len - 1] |= 1;
+    return b;
+}
+// read_unsigned_bin, unsigned_bin_size, count_bits, to_unsigned_bin, to_unsigned_bin_nr, to_unsigned_bin_alloc
+static void op_bin(Tape &t, Ctx &c) {
+    Case cs;
+    cs.op = "bin";
+    int q = pick_nd(t, LIM - 1), rem = (int) t.below(8);
+    static const int lz[8] = { 0, 0, 0, 0, 1, 2, 8, 9 };
+    int zeros = lz[t.below(8)];
+    int len = q * 8 + rem;
+    std::vector<uint8_t> val = gen_bytes(t, len, cs);
+    std::vector<uint8_t> buf((size_t) zeros, 0);
+    buf.insert(buf.end(), val.begin(), val.end());
+    cs.m = q + (rem ? 1 : 0); cs.edge = zeros > 0 || rem == 0;
+    unsigned im = (unsigned) t.below(4);
+    cs.extra = fmt("len=%d lead0=%d init=%u", len, zeros, im);
+    P a;
+    if (im == 0) { VF_CHECK(pstm_init_for_read_unsigned_bin(NULL, &a.v, (psSize_t) buf.size()) == PSTM_OKAY, "harness-init", "init_for_read"); a.live = true; }
+    else if (im == 1) { VF_CHECK(pstm_init_size(NULL, &a.v, 1) == PSTM_OKAY, "harness-init", "init_size"); a.live = true; }
+    else mk_out(a, t, true);
+    book(c, cs);
+    Z want;
+    mpz_import(want.v, buf.size(), 1, 1, 1, 0, buf.data());
+    okay(pstm_read_unsigned_bin(&a.v, buf.empty() ? (const unsigned char *) "" : buf.data(), (psSize_t) buf.size()), cs, "read_unsigned_bin");
+    expect(c, &a.v, want.v, cs, "read_unsigned_bin");
+    size_t bits = mpz_sgn(want.v) ? mpz_sizeinbase(want.v, 2) : 0, bytes = (bits + 7) / 8;
+    if (t.below(4) == 0) a.v.sign = a.v.used ? PSTM_NEG : PSTM_ZPOS; // export is of the magnitude
+    VF_CHECK(pstm_count_bits(&a.v) == bits, "count_bits-mismatch", "%s: got %u want %zu", descr(cs).c_str(), (unsigned) pstm_count_bits(&a.v), bits);
+    VF_CHECK(pstm_unsigned_bin_size(&a.v) == bytes && pstm_unsigned_bin_size_nullsafe(&a.v) == bytes && pstm_unsigned_bin_size_nullsafe(NULL) == 0,
+             "unsigned_bin_size-mismatch", "%s: got %u want %zu", descr(cs).c_str(), (unsigned) pstm_unsigned_bin_size(&a.v), bytes);
+    std::vector<uint8_t> ref(bytes + 1, 0);
+    size_t cnt = 0;
+    mpz_export(ref.data(), &cnt, 1, 1, 1, 0, want.v);
+    VF_CHECK(cnt == bytes, "harness-bug", "export size");
+    for (int nr = 0; nr < 2; nr++) {
+        std::vector<uint8_t> out(bytes + 16, 0xCC);
+        int32_t rc = nr ? pstm_to_unsigned_bin_nr(NULL, &a.v, out.data()) : pstm_to_unsigned_bin(NULL, &a.v, out.data());
+        Case c2 = cs; c2.op = nr ? "to_unsigned_bin_nr" : "to_unsigned_bin";
+        okay(rc, c2);
+        bool same = true;
+        for (size_t i = 0; i < bytes; i++) same = same && out[i] == (nr ? ref[bytes - 1 - i] : ref[i]);
+        for (size_t i = bytes; i < out.size(); i++) same = same && out[i] == 0xCC;
+        VF_CHECK(same, c2.op + "-mismatch", "%s: got %s want(be) %s", descr(cs).c_str(), hex(out.data(), bytes + 2, 40).c_str(), hex(ref.data(), bytes, 40).c_str());
+        inv(c, &a.v, c2, "a");
+    }
+    if (t.below(4) == 0) {
+        unsigned char *al = pstm_to_unsigned_bin_alloc(NULL, &a.v);
+        VF_CHECK(al != NULL, "to_unsigned_bin_alloc-error-in-domain", "%s", descr(cs).c_str());
+        bool same = memcmp(al, ref.data(), bytes) == 0;
+        psFree(al, NULL);
+        VF_CHECK(same, "to_unsigned_bin_alloc-mismatch", "%s", descr(cs).c_str());
+    }
+    a.v.sign = PSTM_ZPOS;
+    poke(t, c, &a.v, cs);
+}
+// pstm_read_asn: DER INTEGER (non-negative: first content byte < 0x80, possibly after a 0x00 pad) -> value, *pp advanced
+static void op_asn(Tape &t, Ctx &c) {
+    Case cs;
+    cs.op = "read_asn";
+    int q = t.below(4) ? pick_nd(t, 70) : pick_nd(t, LIM - 1), rem = (int) t.below(8);
+    int len = imax(1, q * 8 + rem);
+    std::vector<uint8_t> val = gen_bytes(t, len, cs);
+    bool pad = (val[0] & 0x80) || t.below(8) == 0;
+    std::vector<uint8_t> content;
+    if (pad) content.push_back(0);
+    content.insert(content.end(), val.begin(), val.end());
+    size_t vlen = content.size();
+    std::vector<uint8_t> der;
+    unsigned bad = (unsigned) t.below(16); // 1: wrong tag  2: truncated  3: length says more than present
+    der.push_back(bad == 1 ? (uint8_t) (t.coin() ? 0x03 : 0x30) : 0x02);
+    unsigned lf = (unsigned) t.below(4);
+    if (vlen < 128 && lf != 3) der.push_back((uint8_t) vlen);
+    else if (vlen < 256 && lf != 2) { der.push_back(0x81); der.push_back((uint8_t) vlen); }
+    else { der.push_back(0x82); der.push_back((uint8_t) (vlen >> 8)); der.push_back((uint8_t) vlen); }
+    size_t hdr = der.size();
+    der.insert(der.end(), content.begin(), content.end());
+    size_t extra = t.below(3) == 0 ? 1 + t.below(6) : 0;
+    for (size_t i = 0; i < extra; i++) der.push_back((uint8_t) (0x02 + i));
+    size_t avail = der.size();
+    if (bad == 2) avail = hdr + vlen - 1 - (vlen > 1 ? t.below(vlen - 1) : 0);
+    if (bad == 3) avail = hdr - 1 + (vlen > 1 ? t.below(vlen) : 0), avail = avail < 1 ? 1 : avail;
+    cs.m = (int) ((vlen + 7) / 8); cs.edge = pad || extra || bad <= 3;
+    cs.extra = fmt("vlen=%zu hdr=%zu extra=%zu bad=%u", vlen, hdr, extra, bad <= 3 ? bad : 0);
+    book(c, cs);
+    // exact-size heap copy so that any over-read is seen by ASan
+    std::vector<uint8_t> in(der.begin(), der.begin() + (long) avail);
+    const unsigned char *p = in.data();
+    P a;
+    int32_t rc = pstm_read_asn(NULL, &p, (psSize_t) in.size(), &a.v);
+    if (bad >= 1 && bad <= 3) {
+        c.count("read_asn:malformed");
+        if (rc == PSTM_OKAY) a.live = true;
+        VF_CHECK(rc != PSTM_OKAY, "read_asn-accepted-malformed", "%s: accepted", descr(cs).c_str());
+        VF_CHECK(p == in.data(), "read_asn-pointer-moved-on-error", "%s", descr(cs).c_str());
+        return;
+    }
+    okay(rc, cs);
+    a.live = true;
+    Z want;
+    mpz_import(want.v, content.size(), 1, 1, 1, 0, content.data());
+    expect(c, &a.v, want.v, cs);
+    VF_CHECK(p == in.data() + hdr + vlen, "read_asn-pointer", "%s: pointer advanced by %ld, want %zu", descr(cs).c_str(), (long) (p - in.data()), hdr + vlen);
+    poke(t, c, &a.v, cs);
+}
+// pstm_read_radix: radix 2..64, digits "0-9A-Za-z+/", case-insensitive below radix 36, optional leading '-', stops at 'len'
+// characters or at the first character that is not a digit of the radix.  In-tree: radix 16 curve constants.
+static void op_radix(Tape &t, Ctx &c) {
+    static const char *map = "0123456789ABCDEFGHIJKLMNOPQRSTUVWXYZabcdefghijklmnopqrstuvwxyz+/";
+    Case cs;
+    cs.op = "read_radix";
+    unsigned rk = (unsigned) t.below(8);
+    int radix = rk < 5 ? 16 : rk == 5 ? 10 : rk == 6 ? 2 + (int) t.below(63) : (t.coin() ? 64 : 36);
+    int m = pick_nd(t, 60);
+    cs.ca = pick_cls(t, false);
+    Mag A = gen_mag(t, m, cs.ca, NULL);
+    cs.m = m; cs.sa = t.below(5) == 0;
+    cs.edge = radix != 16;
+    Z za, q;
+    z_from_mag(za.v, A, 0);
+    std::string digits;
+    mpz_set(q.v, za.v);
+    while (mpz_sgn(q.v) != 0) { unsigned long d = mpz_tdiv_q_ui(q.v, q.v, (unsigned long) radix); digits.insert(digits.begin(), map[d]); }
+    int lead = (int) t.below(4) == 0 ? 1 + (int) t.below(3) : 0;
+    std::string s = std::string(cs.sa ? "-" : "") + std::string((size_t) lead, '0') + digits;
+    if (digits.empty() && lead == 0) s += "0";
+    if (radix < 36) { uint64_t bitsrc = t.u64(); for (size_t i = 0; i < s.size(); i++) if (s[i] >= 'A' && s[i] <= 'Z' && ((bitsrc >> (i & 63)) & 1)) s[i] = (char) (s[i] - 'A' + 'a'); }
+    size_t len = s.size();
+    // the value the parser must produce: digits up to len, or up to an inserted non-digit
+    Z want; mpz_set(want.v, za.v);
+    unsigned tail = (unsigned) t.below(8);
+    if (tail == 1) s += "1"; // a valid digit beyond len: must not be consumed
+    else if (tail == 2 && len > (size_t) (cs.sa ? 2 : 1)) { // a non-digit inside: parsing stops there
+        size_t pos = (cs.sa ? 1 : 0) + 1 + t.below(len - (cs.sa ? 1 : 0) - 1);
+        char bad = radix <= 36 ? '!' : '-';
+        s[pos] = bad;
+        mpz_set_ui(want.v, 0);
+        for (size_t i = cs.sa ? 1 : 0; i < pos; i++) {
+            char ch = s[i]; if (radix < 36 && ch >= 'a' && ch <= 'z') ch = (char) (ch - 'a' + 'A');
+            const char *f = strchr(map, ch);
+            mpz_mul_ui(want.v, want.v, (unsigned long) radix); mpz_add_ui(want.v, want.v, (unsigned long) (f - map));
+        }
+    }
+    if (cs.sa) mpz_neg(want.v, want.v);
+    cs.extra = fmt("radix=%d len=%zu tail=%u", radix, len, tail <= 2 ? tail : 0);
+    P a;
+    unsigned im = (unsigned) t.below(3);
+    if (im == 0) { VF_CHECK(pstm_init_for_read_unsigned_bin(NULL, &a.v, (psSize_t) (len / 2 + 1)) == PSTM_OKAY, "harness-init", "init"); a.live = true; }
+    else if (im == 1) { VF_CHECK(pstm_init_size(NULL, &a.v, 1) == PSTM_OKAY, "harness-init", "init"); a.live = true; }
+    else mk_out(a, t, true);
+    book(c, cs);
+    c.count(fmt("read_radix:radix=%s", radix == 16 ? "16" : radix == 10 ? "10" : radix < 36 ? "lt36" : "ge36"));
+    if (t.below(32) == 0) { // "make sure the radix is ok"
+        int badr = (int) t.below(3); badr = badr == 2 ? 65 + (int) t.below(100) : badr;
+        VF_CHECK(pstm_read_radix(NULL, &a.v, s.c_str(), (psSize_t) len, (uint8_t) badr) != PSTM_OKAY, "read_radix-accepted-bad-radix", "radix %d accepted", badr);
+        c.count("read_radix:bad-radix");
+        return;
+    }
+    std::vector<char> in(s.begin(), s.end()); // exact-size heap copy (no terminator): an over-read is seen by ASan
+    okay(pstm_read_radix(NULL, &a.v, in.data(), (psSize_t) len, (uint8_t) radix), cs);
+    expect(c, &a.v, want.v, cs);
+    poke(t, c, &a.v, cs);
+}
+
+// ------------------------------------------------------------------ copy / abs / init_copy / set / zero / exch / grow / clamp / limits
+static void op_copy(Tape &t, Ctx &c) {
+    Case cs;
+    unsigned kind = (unsigned) t.below(8);
+    static const char *names[8] = { "copy", "copy", "abs", "init_copy", "init_copy", "set_zero_exch", "grow_clamp", "limits" };
+    cs.op = names[kind];
+    int m = pick_nd(t, MAXD);
+    cs.ca = pick_cls(t, false);
+    Mag A = gen_mag(t, m, cs.ca, NULL);
+    cs.m = m; cs.sa = m > 0 && t.below(3) == 0;
+    P a; mk(a, A, cs.sa, (unsigned) t.below(5));
+    Z za, want; z_from_mag(za.v, A, cs.sa);
+    if (kind <= 2) {
+        cs.alias = t.below(6) == 0 ? AL_CA : AL_NONE;
+        P o; pstm_int *po = &a.v;
+        if (cs.alias == AL_NONE) { mk_out(o, t, true); po = &o.v; }
+        book(c, cs);
+        if (kind == 2) { mpz_abs(want.v, za.v); okay(pstm_abs(&a.v, po), cs); } else { mpz_set(want.v, za.v); okay(pstm_copy(&a.v, po), cs); }
+        expect(c, po, want.v, cs);
+        if (po != &a.v) unchanged(c, &a.v, A, cs.sa, cs, "a");
+        poke(t, c, po, cs);
+    } else if (kind <= 4) {
+        uint8_t toSqr = kind == 4;
+        cs.extra = fmt("toSqr=%u", toSqr);
+        book(c, cs);
+        P o;
+        int32_t rc = pstm_init_copy(NULL, &o.v, &a.v, toSqr);
+        if (rc == PSTM_OKAY) o.live = true;
+        if (rc != PSTM_OKAY && toSqr && 2 * m + 3 > MAXD) { c.count("init_copy:over-limit-error"); return; } // smart-size request beyond PSTM_MAX_SIZE
+        okay(rc, cs);
+        expect(c, &o.v, za.v, cs);
+        VF_CHECK(o.v.dp != a.v.dp, "init_copy-mismatch", "%s: shares storage with the source", descr(cs).c_str());
+        unchanged(c, &a.v, A, cs.sa, cs, "a");
+        poke(t, c, &o.v, cs);
+    } else if (kind == 5) {
+        book(c, cs);
+        P o; mk_out(o, t, true);
+        bool e; pstm_digit d = pick_digit(t, &e);
+        pstm_set(&o.v, d);
+        mpz_import(want.v, 1, -1, 8, 0, 0, &d);
+        expect(c, &o.v, want.v, cs, "set");
+        VF_CHECK((pstm_iszero(&o.v) == PS_TRUE) == (d == 0) && (pstm_isodd(&o.v) == PS_TRUE) == ((d & 1) == 1) && (pstm_iseven(&o.v) == PS_TRUE) == (d != 0 && (d & 1) == 0), "set_zero_exch-mismatch", "%s: iszero/isodd/iseven of %llx", descr(cs).c_str(), (unsigned long long) d);
+        pstm_exch(&o.v, &a.v);
+        expect(c, &o.v, za.v, cs, "exch a"); expect(c, &a.v, want.v, cs, "exch b");
+        pstm_zero(&o.v); mpz_set_ui(want.v, 0);
+        expect(c, &o.v, want.v, cs, "zero");
+        poke(t, c, &o.v, cs);
+    } else if (kind == 6) {
+        book(c, cs);
+        int g = (int) t.below(MAXD + 1);
+        int32_t rc = pstm_grow(&a.v, (psSize_t) g);
+        okay(rc, cs, "grow");
+        VF_CHECK(a.v.alloc >= g, "grow_clamp-mismatch", "%s: alloc %u after grow(%d)", descr(cs).c_str(), (unsigned) a.v.alloc, g);
+        expect(c, &a.v, za.v, cs, "grow");
+        // a number with leading zero digits (as left by digit-wise producers) is normalised by clamp
+        int pad = (int) t.below((uint64_t) (a.v.alloc - a.v.used) + 1);
+        for (int i = 0; i < pad; i++) a.v.dp[a.v.used + i] = 0;
+        a.v.used = (uint16_t) (a.v.used + pad);
+        pstm_clamp(&a.v);
+        expect(c, &a.v, za.v, cs, "clamp");
+        poke(t, c, &a.v, cs);
+    } else {
+        book(c, cs);
+        P o;
+        int over = MAXD + 1 + (int) t.below(1000);
+        int32_t rc = pstm_init_size(NULL, &o.v, (psSize_t) over);
+        if (rc == PSTM_OKAY) o.live = true;
+        VF_CHECK(rc != PSTM_OKAY, "limits-accepted-oversize", "pstm_init_size(%d) succeeded", over);
+        VF_CHECK(pstm_grow(&a.v, (psSize_t) over) != PSTM_OKAY, "limits-accepted-oversize", "pstm_grow(%d) succeeded", over);
+        expect(c, &a.v, za.v, cs, "a after failed grow");
+        VF_CHECK(pstm_2expt(&a.v, (int16_t) (MAXD * 64 + (int) t.below(2000))) != PSTM_OKAY, "limits-accepted-oversize", "pstm_2expt beyond PSTM_MAX_SIZE succeeded");
+        inv(c, &a.v, cs, "a after failed 2expt");
+    }
+}
+
+// ------------------------------------------------------------------ dispatcher
+struct OpEntry { const char *name; unsigned weight; void (*fn)(Tape &, Ctx &); };
+static void f_add(Tape &t, Ctx &c) { op_addsub(t, c, 0); }
+static void f_sub(Tape &t, Ctx &c) { op_addsub(t, c, 1); }
+static void f_sub_s(Tape &t, Ctx &c) { op_addsub(t, c, 2); }
+static void f_add_d(Tape &t, Ctx &c) { op_digit(t, c, 0); }
+static void f_sub_d(Tape &t, Ctx &c) { op_digit(t, c, 1); }
+static void f_mul_d(Tape &t, Ctx &c) { op_digit(t, c, 2); }
+static void f_mul(Tape &t, Ctx &c) { op_mul(t, c, false); }
+static void f_sqr(Tape &t, Ctx &c) { op_mul(t, c, true); }
+static void f_mul_2(Tape &t, Ctx &c) { op_shift1(t, c, true); }
+static void f_div_2(Tape &t, Ctx &c) { op_shift1(t, c, false); }
+static void f_lshd(Tape &t, Ctx &c) { op_shiftd(t, c, 0); }
+static void f_rshd(Tape &t, Ctx &c) { op_shiftd(t, c, 1); }
+static void f_2expt(Tape &t, Ctx &c) { op_shiftd(t, c, 2); }
+static void f_cmp(Tape &t, Ctx &c) { op_cmp(t, c, 0); }
+static void f_cmp_mag(Tape &t, Ctx &c) { op_cmp(t, c, 1); }
+static void f_cmp_d(Tape &t, Ctx &c) { op_cmp(t, c, 2); }
+static const OpEntry OPS[] = {
+    { "add", 14, f_add }, { "sub", 14, f_sub }, { "sub_s", 10, f_sub_s }, { "add_d", 6, f_add_d }, { "sub_d", 6, f_sub_d },
+    { "mul_comba", 26, f_mul }, { "sqr_comba", 16, f_sqr }, { "mul_d", 8, f_mul_d }, { "mul_2", 6, f_mul_2 }, { "div_2", 6, f_div_2 },
+    { "div_2d", 10, op_div_2d }, { "div", 12, op_div }, { "mod", 12, op_mod }, { "mulmod", 14, op_mulmod }, { "invmod", 10, op_invmod },
+    { "exptmod", 2, op_exptmod }, { "lshd", 6, f_lshd }, { "rshd", 6, f_rshd }, { "2expt", 5, f_2expt }, { "cmp", 8, f_cmp },
+    { "cmp_mag", 6, f_cmp_mag }, { "cmp_d", 6, f_cmp_d }, { "montgomery", 22, op_mont }, { "bin", 10, op_bin }, { "read_asn", 6, op_asn },
+    { "read_radix", 6, op_radix }, { "copy", 8, op_copy },
+};
+static void prop(Tape &t, Ctx &c) {
+    unsigned total = 0;
+    for (const OpEntry &e : OPS) total += e.weight;
+    unsigned r = (unsigned) t.below(total);
+    for (const OpEntry &e : OPS) {
+        if (r < e.weight) { e.fn(t, c); return; }
+        r -= e.weight;
+    }
+}
+VF_TARGET("C13.bignum", prop, 1024, 0)
+namespace vf {
+void vf_global_init(int, char **) {
+    psCryptoOpen(PSCRYPTO_CONFIG);
+    init_real();
+    g_fullcov = getenv("C13_FULLCOV") != NULL;
+}
 }
